@@ -396,6 +396,36 @@ def appendix(lang: str, tag: str) -> list[str]:
     return ["", f"function tvExtra{tag}(tvA{tag}, tvB{tag}) {{", f"  const tvC{tag} = tvA{tag} + tvB{tag};", f"  return tvC{tag};", "}"]
 
 
+# ------------------------------------------------------------------ names related to other identifiers of the file
+def related_names(c: str, words, used, bad, r, limit=40) -> list[str]:
+    """fresh identifiers of the SAME length and letter-case class as c that are a proper substring of another identifier of the file
+    (`data` for a file that mentions `metadata`) or contain a shorter one (`metadatax` ...): a rule that compares identifiers by
+    containment instead of equality gives different findings for such a name than for an unrelated one"""
+    n = len(c)
+    cls = (lambda t: bool(re.fullmatch(r"[a-z_][a-z0-9_]*", t))) if c.lower() == c else \
+          (lambda t: bool(re.fullmatch(r"[A-Z_][A-Z0-9_]*", t))) if c.upper() == c else \
+          (lambda t: bool(re.fullmatch(r"[A-Za-z_][A-Za-z0-9_]*", t)) and t.lower() != t and t.upper() != t)
+    out = set()
+    letters = "abcdefghijklmnopqrstuvwxyz"
+    for w in sorted(words):
+        if w == c:
+            continue
+        if len(w) > n:
+            for i in range(len(w) - n + 1):
+                out.add(w[i:i + n])
+        elif 1 < len(w) < n:
+            pad = "".join(r.choice(letters) for _ in range(n - len(w)))
+            pad = pad.upper() if c.upper() == c else pad
+            out.update({w + pad, pad + w})
+    ok = sorted(t for t in out if cls(t) and t not in used and t not in bad and not t[0].isdigit())
+    r.shuffle(ok)
+    return ok[:limit]
+
+
+def is_related(c: str, words) -> bool:
+    return any(w != c and (c in w or (len(w) > 1 and w in c)) for w in words)
+
+
 # ------------------------------------------------------------------ renaming of Python locals
 def py_local_renaming(text: str, r) -> tuple[list[str], dict] | None:
     """rename some function-local variables (assigned in a function, never parameters / globals / attributes /
@@ -452,10 +482,18 @@ def py_local_renaming(text: str, r) -> tuple[list[str], dict] | None:
     cands = sorted(c for c in cands if c.islower() or "_" in c and c.lower() == c)
     if not cands:
         return None
-    chosen = [c for c in cands if r.random() < 0.7] or cands[:1]
+    # a local whose name is contained in / contains another identifier of the file is always renamed (to an unrelated name);
+    # half of the others get a name that is related to another identifier
+    chosen = [c for c in cands if is_related(c, all_names) or r.random() < 0.7] or cands[:1]
     mapping, used = {}, set(all_names)
     letters = "abcdefghijklmnopqrstuvwxyz"
+    import keyword
     for c in chosen:
+        rel = related_names(c, all_names, used, set(keyword.kwlist) | set(dir(builtins)), r) if not is_related(c, all_names) and r.random() < 0.5 else []
+        if rel:
+            mapping[c] = rel[0]
+            used.add(rel[0])
+            continue
         for _ in range(200):
             new = "".join(ch if ch == "_" or ch.isdigit() else r.choice(letters) for ch in c)
             if new[0].isdigit():
@@ -574,10 +612,15 @@ def ts_local_renaming(lang: str, text: str, r):
     cands.sort()
     if not cands:
         return None
-    chosen = [c for c in cands if r.random() < 0.7] or cands[:1]
+    chosen = [c for c in cands if is_related(c, all_words) or r.random() < 0.7] or cands[:1]
     mapping, used = {}, set(all_words)
     lower, upper = "abcdefghijklmnopqrstuvwxyz", "ABCDEFGHIJKLMNOPQRSTUVWXYZ"
     for c in chosen:
+        rel = related_names(c, all_words, used, kw, r) if not is_related(c, all_words) and r.random() < 0.5 else []
+        if rel:
+            mapping[c] = rel[0]
+            used.add(rel[0])
+            continue
         for _ in range(200):
             new = "".join(r.choice(lower) if ch.islower() else r.choice(upper) if ch.isupper() else ch for ch in c)
             if new not in used and new not in kw and not new[0].isdigit():
